@@ -28,7 +28,7 @@ ASSUMPTIONS = [
     "for the load-detector clause the observers after the load must see the file's buckets (plus what they themselves wrote) and the final result must carry them",
 ]
 COMPONENTS = {"real": ["Detector.save / load / to_asdf / from_asdf / to_dict / from_dict for CCD, CMOS, MKID, APD", "pyxel.models.load_detector / save_detector inside run_mode", "asdf on a real scratch filesystem"], "stub": ["HDF5 backend: not available"]}
-BUDGET = {"quick": {"n": 400, "wall": 100, "determinism": 4}, "thorough": {"n": 50000, "wall": 1500, "determinism": 12}}
+BUDGET = {"quick": {"n": 400, "wall": 100, "determinism": 4}, "thorough": {"n": 70000, "wall": 1500, "determinism": 12}}
 REQUIRED_REACH = ["type:CCD", "type:CMOS", "type:MKID", "type:APD", "photon3d", "clusters", "scene", "data", "phase", "load_in_pipeline", "load_repeated_in_one_run", "data_groups_without_variables", "roundtrips", "hdf5_not_run", "empty_containers"]
 
 WRITES = ["photon", "charge", "pixel", "signal", "image", "scene", "data", "clusters"]
